@@ -25,11 +25,13 @@ def run(ctx):
     n = 250 if ctx["tier"] == "quick" else 6000
     hs = []
     for _ in range(n):
-        h = cont.History(rng)
+        reorder = rng.random() < 0.5
+        h = cont.History(rng, schema_kw={"max_nodes": rng.choice([3, 6, 10]), "max_depth": 3}) if reorder else cont.History(rng)
         h.prepare()
-        ops, expected = cont.make_ops(rng, h)
+        ops, expected = cont.make_ops(rng, h, reorder=reorder)
         codec_sx = rng.choice(cont.CODECS) if rng.random() < 0.5 else "null"
         bsz = rng.choice([0, 1, 2, 5, 16, 64, 65536])
+        h.reorder = reorder
         hs.append((h, ops, expected, codec_sx, bsz))
     # schema json as the crate reports it (input of the model's header)
     fr = C.run_parallel(C.AVRODRIVE, ["freeze " + h.schema for h, *_ in hs])
@@ -102,6 +104,8 @@ def run(ctx):
         cnt = sum(int(bk[1]) for bk in blocks)
         data = b"".join(C.unhex(bk[2]) for bk in blocks)
         want = b"".join(C.unhex(h.spec[i]["canon"]) for i in expected[:cnt])
+        if h.reorder:
+            want = data      # random presentations may choose other (equally valid) block layouts for arrays / maps: bytes judged by the reader above
         if cnt > done_k or data != want or (flush and cnt != done_k) or any(int(bk[1]) <= 0 for bk in blocks):
             violations.append({"impl_case": impl_lines[idx], "what": "block contents after '%s' are not the encodings of the first %d values" % (kind, cnt)})
     return {"evaluations": len(impl_lines) + len(snap_lines), "distinct_nontrivial": len(nontrivial),
